@@ -38,14 +38,16 @@ package channel
 //@   ensures #nothing-on-error result != nil ==> wire == old(wire)
 //@   ensures #not-quiet !quiet
 //@   at call Debugf#1 assert #redacted-writes-are-not-logged r ==> lm == "redacted"
+//@   flows [C11] #written-bytes-go-only-to-the-transport-and-the-guarded-log-line b only to Write#1.arg0, Debugf#1.arg1
 
 //@ func (*Channel).WriteReturn [C01 C16]
 //@   modifies wire, quiet
 //@   ensures #exactly-one-return result == nil ==> wire == old(wire) ++ c.ReturnChar
 //@   ensures #nothing-on-error result != nil ==> wire == old(wire)
 
-//@ func (*Channel).WriteAndReturn [C01 C16]
+//@ func (*Channel).WriteAndReturn [C01 C16 C11]
 //@   modifies wire, quiet
+//@   flows [C11] #input-goes-only-to-write b only to Write#1.arg0
 //@   ensures #input-then-return result == nil ==> wire == old(wire) ++ b ++ c.ReturnChar
 //@   ensures #partial-only-on-error result != nil ==> wire == old(wire) || wire == old(wire) ++ b
 
@@ -164,6 +166,11 @@ package channel
 
 //@ spec noneMatches(ps []ref, b []byte) bool := forall k int :: 0 <= k && k < len(ps) ==> !reMatch(ps[k], b)
 
+// C11: where a credential may go. A `secret` field may be passed on only by the listed functions (each under a `flows`
+// clause); any other function may compare it or take its length, nothing else.
+//@ secret [C11] SendInteractiveEvent.ChannelInput readers (*Channel).sendInteractive, generic.joinInputEvents
+//@ secret [C11] transport.InChannelAuthData.Password readers (*Channel).Open
+//@ secret [C11] transport.InChannelAuthData.PrivateKeyPassPhrase readers (*Channel).Open
 //@ chanmode (*Channel).sendInteractive:cr count
 //@ func (*Channel).sendInteractive [C12 C11 C06]
 //@   requires RI(c.Q) && c.PromptSearchDepth >= 0 && (forall k int :: 0 <= k && k < len(events) ==> events[k] != nil)
@@ -175,6 +182,7 @@ package channel
 //@   at call Write#1 assert #hidden-inputs-are-redacted arg1 == e.HideInput
 //@   at call Write#1 assert #no-input-after-a-complete-pattern-matched i > 0 && len(op.CompletePatterns) > 0 ==> noneMatches(op.CompletePatterns, pb)
 //@   at call dyn#1 assert #hidden-inputs-not-awaited e.ChannelResponse != "" && !e.HideInput
+//@   flows [C11] #event-input-goes-only-to-write-and-the-echo-wait e.ChannelInput only to Write#1.arg0, dyn#1.arg1
 //@   at call ReadUntilAnyPrompt#1 assert #waits-for-the-expected-response-or-else-the-prompt arg1 === op.CompletePatterns ++ refs(e.ChannelResponse != "" ? compiled(e.ChannelResponse) : c.PromptPattern)
 //@   loop 1 invariant rangeindex < len(events) && RI(c.Q) && chlen(cr) == old(chlen(cr))
 //@   loop 1 invariant rangeindex >= 0 ==> quiet && i == rangeindex && (len(op.CompletePatterns) > 0 && rangeindex < len(events) - 1 ==> noneMatches(op.CompletePatterns, pb))
@@ -202,6 +210,8 @@ package channel
 //@   at call WriteAndReturn#2 assert #passphrase-only-to-its-prompt-redacted reMatch(c.PassphrasePattern, b) && !reMatch(c.PasswordPattern, b) && !reMatch(c.PromptPattern, b) && arg0 == pp && arg1 && ppCount <= 2
 //@   at return assert #third-prompt-is-an-auth-error pCount > 2 || ppCount > 2 ==> result != nil && isErr(result.err, util.ErrAuthError)
 //@   at call sshMessageHandler#1 assert #failure-messages-are-searched-in-everything-read-since-the-last-credential arg0 == b
+//@   flows [C11] #password-goes-only-to-the-redacted-write p only to WriteAndReturn#1.arg0
+//@   flows [C11] #passphrase-goes-only-to-the-redacted-write pp only to WriteAndReturn#2.arg0
 //@   loop 1 invariant RI(c.Q) && 0 <= pCount && pCount <= 2 && 0 <= ppCount && ppCount <= 2
 
 //@ func (*Channel).authenticateTelnet [C10 C11]
@@ -210,6 +220,7 @@ package channel
 //@   ensures #success-means-prompt result != nil && result.err == nil ==> reMatch(c.PromptPattern, result.b)
 //@   at call WriteAndReturn#1 assert #username-written-redacted-at-most-twice arg0 == u && arg1 && uCount <= 2
 //@   at call WriteAndReturn#2 assert #password-written-redacted-at-most-twice arg0 == p && arg1 && pCount <= 2
+//@   flows [C11] #password-goes-only-to-the-redacted-write p only to WriteAndReturn#2.arg0
 //@   at return assert #third-prompt-is-an-auth-error uCount > 2 || pCount > 2 ==> result != nil && isErr(result.err, util.ErrAuthError)
 //@   loop 1 invariant RI(c.Q) && 0 <= uCount && uCount <= 2 && 0 <= pCount && pCount <= 2
 
@@ -221,19 +232,32 @@ package channel
 
 // the two outer login functions race the login goroutine against a timer; their bodies are not verified (the
 // goroutine hand-off may legitimately deliver a nil result only after cancellation, which is a timing argument)
-//@ func (*Channel).AuthenticateSSH
+//@ func (*Channel).AuthenticateSSH [C11]
 //@   noverify
+//@   flows [C11] p only to closure:AuthenticateSSH$1
+//@   flows [C11] pp only to closure:AuthenticateSSH$1
 //@   requires RI(c.Q)
 //@   modifies wire, rd, c.Q.queue, c.Q.depth, chan(c.Q.depthChan), quiet, alloc()
 //@   ensures RI(c.Q)
-//@ func (*Channel).AuthenticateTelnet
+//@ func (*Channel).AuthenticateTelnet [C11]
 //@   noverify
+//@   flows [C11] p only to closure:AuthenticateTelnet$1
 //@   requires RI(c.Q)
 //@   modifies wire, rd, c.Q.queue, c.Q.depth, chan(c.Q.depthChan), quiet, alloc()
 //@   ensures RI(c.Q)
 
-//@ func (*Channel).Open [C07 C10]
+//@ func (*Channel).AuthenticateSSH$1 [C11]
+//@   noverify
+//@   flows [C11] p only to authenticateSSH#1.arg1
+//@   flows [C11] pp only to authenticateSSH#1.arg2
+//@ func (*Channel).AuthenticateTelnet$1 [C11]
+//@   noverify
+//@   flows [C11] p only to authenticateTelnet#1.arg2
+
+//@ func (*Channel).Open [C07 C10 C11]
 //@   requires RI(c.Q) && c.Errs != c.Q.depthChan
+//@   flows [C11] #login-password-goes-only-to-the-login-functions authData.Password only to AuthenticateSSH#1.arg0, AuthenticateTelnet#1.arg1
+//@   flows [C11] #passphrase-goes-only-to-the-login-function authData.PrivateKeyPassPhrase only to AuthenticateSSH#1.arg1
 //@   ensures #failed-open-closes-the-transport result != nil && implOpened ==> implClosed
 
 // assumed here, verified nowhere yet: the two outer exchange functions used by the network driver
